@@ -52,6 +52,7 @@ def validate(w, obs, label):
     slim = []
     for o in obs:
         s = {k: o[k] for k in ("id", "kinds", "ntoks", "events", "weak")}
+        s["unlinked"] = o.get("unlinked") or []
         s["final"] = {k: v for k, v in o["final"].items() if k not in ("err", "extra")}
         slim.append(s)
     write_ndjson(tf, slim, clamp=True)
@@ -66,7 +67,7 @@ def sig(o):
     states = set(f["snap"]) | {e2 for e in o["events"] for e2 in e["snap"]}
     return {"mode": o["mode"], "final_mode": f["mode"], "result": f["result"], "delete": bool((o.get("scn") or {}).get("delete")),
             "temps_left": f["temps"] > 0 and f["mode"] == "error",
-            "partial_content": "other" in states or f.get("lnk") in ("other", "absent"),
+            "partial_content": "other" in states or f.get("lnk") in ("other", "absent"), "unlinked": bool(o.get("unlinked")),
             "recv": o["recv"] if (f["temps"] > 0 and f["mode"] == "error") else None}
 
 
@@ -98,6 +99,12 @@ def check(w):
         if s["kinds"][0] == "replace" or not quick:
             for rv in ("client", "daemon"):
                 scen.append(dict(s, recv=rv, mode="freeze", batch=True, delete=True))
+    # ... and with the replaced symlink pointing to a DIRECTORY inside the destination (every listed name is also watched
+    # by inotify: a path with previous content must never be seen unlinked, whatever it points to)
+    for s in base:
+        if s["ntoks"] == [1] * len(s["ntoks"]) or not quick:
+            for rv in ("client", "daemon"):
+                scen.append(dict(s, recv=rv, mode="freeze", batch=True, lnkdir=True))
     for i, s in enumerate(scen):
         s["id"] = i + 1
     obs, summ = run(w, scen, "freeze")
@@ -185,7 +192,9 @@ def check(w):
     for o in rnd.sample(good, min(40, len(good))):
         c = json.loads(json.dumps(o))
         c["id"] = 10_000_000 + o["id"]
-        if c["events"] and rnd.random() < 0.5:
+        if rnd.random() < 0.2:
+            c["unlinked"] = ["l"]
+        elif c["events"] and rnd.random() < 0.5:
             e = rnd.choice(c["events"])
             k = rnd.randrange(len(e["snap"]))
             e["snap"][k] = "other"
